@@ -10,9 +10,9 @@ Local Open Scope list_scope.
 Lemma option_ext {A} (x y : option A) : (forall b, x = Some b <-> y = Some b) -> x = y.
 Proof.
   intros H. destruct x as [a|], y as [b|]; try reflexivity.
-  - apply H; reflexivity.
-  - destruct (proj1 (H a) eq_refl).
-  - symmetry. apply H; reflexivity.
+  - symmetry. exact (proj1 (H a) eq_refl).
+  - discriminate (proj1 (H a) eq_refl).
+  - discriminate (proj2 (H b) eq_refl).
 Qed.
 
 Lemma slength_app (a b : string) : String.length (a ++ b)%string = String.length a + String.length b.
@@ -154,10 +154,10 @@ Section NormProofs.
   Proof. unfold MTar.append. rewrite view_app, In_keys_apply_ops. tauto. Qed.
 
   (* ---------------------------------------------------------------- packing a folder *)
-  Lemma last_write_In n b ops :
-    NoDup (map nkey ops) -> (last_write n ops = Some b <-> In (n, b) (map nentry ops)).
+  Lemma last_write_In n ops :
+    NoDup (map nkey ops) -> forall b, (last_write n ops = Some b <-> In (n, b) (map nentry ops)).
   Proof.
-    induction ops as [|e r IH]; intros ND; [cbn; split; [discriminate | tauto]|].
+    induction ops as [|e r IH]; intros ND b; [cbn; split; [discriminate | tauto]|].
     cbn [map] in ND. inversion ND as [|? ? NI ND']; subst. specialize (IH ND').
     cbn [MTar.last_write map In]. split.
     - destruct (last_write n r) as [b'|] eqn:L.
@@ -193,7 +193,7 @@ Section NormProofs.
     Lemma packed_view n : lookup n (view members) = lookup n dir.
     Proof.
       rewrite lookup_view. apply option_ext. intros b.
-      rewrite (last_write_In n b members packed_nodup), (lookup_In n b dir dir_wf).
+      rewrite (last_write_In n members packed_nodup b), (lookup_In n b dir dir_wf).
       split; intros I; [apply (Permutation_in _ packed) | apply (Permutation_in _ (Permutation_sym packed))]; exact I.
     Qed.
 
@@ -297,9 +297,9 @@ Section NormProofs.
     (base <> None \/ ops <> []) ->
     close (run_appends norm true (open_append base) ops) = kill (run_appends norm true (open_append base) ops).
   Proof.
-    intros H. unfold close. rewrite flush_leaves_no_buffer by reflexivity. rewrite app_nil_r.
-    rewrite kill_after. destruct base as [l|], ops as [|e r]; try reflexivity.
-    destruct H as [H|H]; congruence.
+    intros H. unfold close, kill. rewrite run_appends_flush by reflexivity. unfold open_append.
+    destruct base as [l|], ops as [|e r]; cbn [w_disk w_buf odflt]; rewrite ?app_nil_r; try reflexivity.
+    destruct H as [H|H]; exfalso; apply H; reflexivity.
   Qed.
 
   Lemma close_view base ops :
